@@ -7,6 +7,7 @@ exhaustively up to the stated bound:
   tile, repeat_rows, merge_leading_dims, split_leading_dim, sum_except_batch   index formulas
   searchsorted   real mode: knots[idx] <= x < knots[idx+1] for sorted knots; IEEE mode: idx in [0, K-1]
   cbrt           cbrt(x)^3 == x for x != 0 (both signs)
+  get_temperature  sigmoid(T * max_value) == bound below the cap, 1 only when the solution exceeds 1
   logabsdet      exp(result)^2 == det^2
   mask constructors   pattern and count; random mask with the multinomial draw as arbitrary distinct indices
   typechecks     CrossHair contracts on the real predicates (bool / int semantics)
@@ -234,6 +235,124 @@ def job_cbrt(cfg):
                 if o3.status != "unsat":
                     jr["inconclusive"].append({"query": o3.name, "status": o3.status})
     jr["samples"].append({"kernel": "cbrt", "claim": "cbrt(x)^3 == x and sign preserved, x != 0"})
+    solver.close()
+    return jr
+
+
+class _TorchProxy:
+    """`torch` as seen by get_temperature: `torch.Tensor([python scalar])` builds a one-element symbolic tensor
+    from a symbolic scalar (the function has no tensor entry point); everything else is real torch."""
+
+    def __getattr__(self, n):
+        return getattr(torch, n)
+
+    @staticmethod
+    def Tensor(lst):
+        out = np.empty((len(lst),), dtype=object)
+        for i, v in enumerate(lst):
+            out[i] = v.a[()] if isinstance(v, Sym) else S(tm.read_float(v)) if isinstance(v, float) else S(tm.const(v))
+        return Sym(out)
+
+
+def replay_temperature(m, b):
+    """real get_temperature at (max_value, bound): sigmoid(T * max_value) == bound when T < 1, else T == 1 and
+    sigmoid(max_value) <= bound"""
+    res = {"reproduced": False, "max_value": m, "bound": b}
+    try:
+        T = torchutils.get_temperature(m, b)
+        Tv = float(T)
+        res["temperature"] = Tv
+        sg = float(torch.sigmoid(torch.tensor(Tv * m, dtype=torch.float64)))
+        res["sigmoid"] = sg
+        if Tv > 1:
+            res["reproduced"] = True
+        elif Tv < 1:
+            res["reproduced"] = abs(sg - b) > 1e-4 * max(1.0, 1.0 / min(b, 1 - b) * 1e-2)
+        else:
+            res["reproduced"] = sg > b + 1e-4
+    except Exception as e:  # noqa
+        res["exception"] = "%s: %s" % (type(e).__name__, e)
+        res["reproduced"] = True
+    return res
+
+
+def job_temperature(cfg):
+    """get_temperature(max_value, bound) for every max_value > 0 and every bound in (0,1): the returned T satisfies sigmoid(T*max_value) == bound when it is below the cap 1; when the
+    cap applies the uncapped solution is >= 1 (path condition) and 1 is returned."""
+    timeout = cfg["timeout"]
+    R = sc.new_registry()
+    solver = smt.Z3Proc()
+    jr = C01.new_jr("get_temperature")
+    m = stubs.scalar("maxv", lo=0)
+    b = stubs.scalar("bound", lo=0, hi=1)
+    mt, bt = m.a[()].t, b.a[()].t
+    ex = explore.Explorer(R, solver)
+    with stubs.patched((torchutils, "torch", _TorchProxy())):
+        res = ex.explore(lambda: torchutils.get_temperature(m, b))
+    jr["paths"] += len(res)
+    kinds = set()
+
+    def fail(o, relation):
+        vals = {}
+        for t, v in (o.model or {}).items():
+            if t is mt:
+                vals["m"] = float(v)
+            if t is bt:
+                vals["b"] = float(v)
+        if len(vals) == 2:
+            rep = replay_temperature(**vals)
+            if rep.get("reproduced"):
+                payload = {"property": PROP, "kernel": "get_temperature", "relation": relation, "replay_result": rep, "replay_call": {"fn": "harness.C20:replay_temperature", "args": vals}}
+                jr["violations"].append({"kernel": "get_temperature", "relation": relation, "signature": "get_temperature/" + relation, "replay": C.write_replay(PROP, "get_temperature_" + "".join(ch if ch.isalnum() else "_" for ch in relation), payload), "detail": rep})
+                return
+        jr["inconclusive"].append({"query": o.name, "status": o.status, "why": "not decided / not reproduced on real tensors"})
+
+    for r in res:
+        if r.kind != "return":
+            jr["inconclusive"].append({"get_temperature": "unexpected", "exc": str(r.exc)})
+            continue
+        cond = r.path.condition()
+        if isinstance(r.value, Sym):
+            kinds.add("solved")
+            T = r.value
+            if T.a.shape != (1,):
+                jr["inconclusive"].append({"get_temperature": "shape", "shape": list(T.a.shape)})
+                continue
+            Tt = T.a[0].t
+            sg = torch.sigmoid(T * m).a[0].t
+            for nm, goal in (("sigmoid(T*max)==bound", tm.eq(sg, bt)), ("T<=1", tm.le(Tt, tm.ONE))):
+                o = C.prove(R, solver, "get_temperature/solved/" + nm, goal, [cond], timeout)
+                jr["outcomes"].append(o.as_dict())
+                if o.status != "unsat":
+                    fail(o, nm)
+            w = C.witness(R, solver, "get_temperature/solved/twin:reachable+false-claim", list(cond) + [tm.not_(tm.eq(sg, tm.sub(tm.ONE, bt)))], timeout)
+            jr["outcomes"].append(w.as_dict())
+            if w.status != "sat":
+                jr["inconclusive"].append({"query": w.name, "status": w.status})
+        else:
+            kinds.add("capped")
+            ok = (r.value == 1) and not isinstance(r.value, bool)
+            rec(jr, "get_temperature/capped/returns 1", ok, repr(r.value))
+            if not ok:
+                jr["inconclusive"].append({"get_temperature": "capped value", "value": repr(r.value)})
+            # the cap applies only when the exact solution log(b/(1-b))/max exceeds 1
+            sol = tm.mul(tm.power(mt, -1), tm.sub(sc.t_log(bt), sc.t_log(tm.sub(tm.ONE, bt))))
+            o = C.prove(R, solver, "get_temperature/capped/solution>1", tm.gt(sol, tm.ONE), [cond], timeout)
+            jr["outcomes"].append(o.as_dict())
+            if o.status != "unsat":
+                fail(o, "capped although solution<=1")
+            w = C.witness(R, solver, "get_temperature/capped/twin:reachable", list(cond), timeout)
+            jr["outcomes"].append(w.as_dict())
+            if w.status != "sat":
+                jr["inconclusive"].append({"query": w.name, "status": w.status})
+        for ob in r.path.obligations:
+            o3 = C.prove(R, solver, "get_temperature/obl:%s" % ob.kind, ob.cond, [r.path.condition(ob.n_dec, ob.n_asm)], timeout, kind="obligation")
+            jr["outcomes"].append(o3.as_dict())
+            if o3.status != "unsat":
+                fail(o3, "obligation " + ob.kind)
+    if kinds != {"solved", "capped"}:
+        jr["inconclusive"].append({"get_temperature": "paths", "kinds": sorted(kinds)})
+    jr["samples"].append({"kernel": "get_temperature", "claim": "sigmoid(T*max_value) == bound and T <= 1 on the uncapped path; 1 returned only when the solution exceeds 1; for all max_value > 0, 0 < bound < 1 (exact reals, log/exp as inverse functions)"})
     solver.close()
     return jr
 
@@ -673,7 +792,7 @@ def replay_call(fn, shape, n):
 
 
 def job(cfg):
-    return {"shapes": job_shapes, "searchsorted": job_searchsorted_real, "cbrt": job_cbrt, "logabsdet": job_logabsdet, "masks": job_masks, "typechecks": job_typechecks, "fp": C17.job_fp}[cfg["type"]](cfg)
+    return {"shapes": job_shapes, "searchsorted": job_searchsorted_real, "cbrt": job_cbrt, "temperature": job_temperature, "logabsdet": job_logabsdet, "masks": job_masks, "typechecks": job_typechecks, "fp": C17.job_fp}[cfg["type"]](cfg)
 
 
 def configs(tier):
@@ -682,6 +801,7 @@ def configs(tier):
     cfgs = [
         {"type": "shapes", "maxd": 3 if q else 4},
         {"type": "cbrt", "timeout": t},
+        {"type": "temperature", "timeout": t},
         {"type": "logabsdet", "timeout": t, "sizes": (1, 2) if q else (1, 2, 3, 4)},
         {"type": "masks", "maxf": 8, "maxf_random": 4 if q else 6},
         {"type": "typechecks", "ch_timeout": 10 if q else 30},
@@ -697,15 +817,15 @@ def configs(tier):
 def main():
     rep = C.Report(PROP)
     cfgs = configs(C.TIER)
-    rep.functions = C.source_hash([torchutils.tile, torchutils.repeat_rows, torchutils.merge_leading_dims, torchutils.split_leading_dim, torchutils.sum_except_batch, torchutils.searchsorted, torchutils.cbrt, torchutils.logabsdet, torchutils.create_alternating_binary_mask, torchutils.create_mid_split_binary_mask, torchutils.create_random_binary_mask, typechecks])
+    rep.functions = C.source_hash([torchutils.tile, torchutils.repeat_rows, torchutils.merge_leading_dims, torchutils.split_leading_dim, torchutils.sum_except_batch, torchutils.searchsorted, torchutils.cbrt, torchutils.get_temperature, torchutils.logabsdet, torchutils.create_alternating_binary_mask, torchutils.create_mid_split_binary_mask, torchutils.create_random_binary_mask, typechecks])
     rep.bounds = {"shapes": "all shapes with <= %d dims of size <= %d (<= 96 elements), repetitions <= 3" % ((3, 3) if C.TIER == "quick" else (4, 4)), "searchsorted_bins": sorted({c["K"] for c in cfgs if c["type"] == "searchsorted"}), "mask_features": "split point / draw count / slice bounds: every integer features >= 1 (symbolic, unbounded); mask contents on real torch: 1..8 (random: 1..%d, every tuple of distinct indices)" % max(c.get("maxf_random", 0) for c in cfgs), "logabsdet": "1x1..%dx%d symbolic matrices" % ((max(max(c.get("sizes", (0,))) for c in cfgs),) * 2)}
     rep.assumptions = [
         "exact reals for cbrt/logabsdet/searchsorted(real); IEEE claim only for the bin index",
-        "get_temperature builds its own torch.Tensor from a python scalar (no symbolic entry point): outside the claim; gaussian_kde_log_eval is checked under C05",
+        "get_temperature: max_value > 0 and 0 < bound < 1 symbolic reals (exact arithmetic; log/exp as mutually inverse functions); gaussian_kde_log_eval is checked under C05",
         "typechecks: CrossHair's 'Confirmed over all paths' verdict for int / float / object arguments",
         "cbrt at exactly 0 evaluates log(0): the claim is for x != 0 (both signs)",
     ]
-    rep.stubs = ["torch.multinomial -> arbitrary distinct symbolic indices", "torch.zeros(n) -> symbolic zero vector inside create_random_binary_mask"]
+    rep.stubs = ["torch.multinomial -> arbitrary distinct symbolic indices", "torch.Tensor([scalar]) inside get_temperature -> one-element symbolic tensor (module-level torch proxy)", "torch.zeros(n) -> symbolic zero vector inside create_random_binary_mask"]
     for jr in C.run_jobs(job, cfgs):
         rep.add_job(jr)
     sys.exit(rep.finish("the real helpers executed on symbolic tensors; index formulas as term identities, searchsorted bracket / cbrt / logabsdet by z3 (QF_NRA, QF_FP), mask constructors over all symbolic draws, type predicates by CrossHair"))
